@@ -596,7 +596,7 @@ class ModelMixin(object):
                         yield r
                     return
                 if not st.is_fresh(o):
-                    st.log.append(("effect", "attribute store .%s on a pre-existing %s object" % (name, c.cls.name)))
+                    st.log.append(("effect", "attribute store .%s on a pre-existing %s object" % (name, c.cls.name), name, v, c.cls.name))
                 c2 = Obj(c.cls, c.fields)
                 for a in ("attr_hook", "setattr_hook"):
                     if hasattr(c, a):
